@@ -158,23 +158,23 @@ def FSYM(**kw):
     return Env("sym", **kw)
 
 
-def body_farmer(E, phase, c, K, base):
+def body_farmer(E, phase, c, K, base, window=False):
     """reap of a Runner / Harvester / Sampler crop killed at step c.
 
     Real mode (replay): the farming layer's steps are coarser on the real disk than on StepFS, so the
     replay asks the same question for every real crash instant of the phase and fails if any fails."""
     if E is REAL:
         for cc in range(0, 40):
-            ok, killed = _farmer_once(E, phase, cc, K, base)
+            ok, killed = _farmer_once(E, phase, cc, K, base, window)
             if not ok:
                 return False
             if not killed:
                 break
         return True
-    return _farmer_once(E, phase, c, K, base)[0]
+    return _farmer_once(E, phase, c, K, base, window)[0]
 
 
-def _farmer_once(E, phase, c, K, base):
+def _farmer_once(E, phase, c, K, base, window=False):
     from .C15 import install_choice
 
     phase = concretize(phase, 5, 7)
@@ -191,10 +191,10 @@ def _farmer_once(E, phase, c, K, base):
             ctl = RealSteps(K)
             ctl.install(env, cp)
             install_farming(ctl, env, fm, mg)
-        return _farmer_run(env, ctl, phase, c, base, install_choice)
+        return _farmer_run(env, ctl, phase, c, base, install_choice, window)
 
 
-def _farmer_run(env, ctl, phase, c, base, install_choice):
+def _farmer_run(env, ctl, phase, c, base, install_choice, window):
     if True:
 
         def fn(a, b=20):
@@ -264,6 +264,10 @@ def _farmer_run(env, ctl, phase, c, base, install_choice):
                 ready = c1.is_ready_to_reap()
             except Exception:  # noqa
                 ready = False
+            if ready and phase == 7 and killed and len(now) > len(old_rows) and not window:
+                # KNOWN FINDING (probed by condition sampler_dup_window): the table was saved but the crop
+                # is still complete, so reaping again appends the rows twice; excluded here
+                return (True), killed
             if ready:
                 delivered = c1.reap()
         if phase == 5:
@@ -308,11 +312,11 @@ CONDS = (
                   ["0 <= c <= 22 and 0 <= c2 <= 30"], "phase", [0, 2, 4], fixed=dict(K=2), timeout=3600,
                   tiers=("thorough",),
                   bounds="as raw, plus a second kill after c2 steps of the recovery, and both rmtree orders")
-    + [make_cond(_G, "sampler_dup_window", body_farmer, "c:int base:int", ["c == 4"], fixed=dict(K=2, phase=7),
+    + [make_cond(_G, "sampler_dup_window", body_farmer, "c:int base:int", ["c == 4"], fixed=dict(K=2, phase=7, window=True),
                  timeout=300, expect="refuted", reach=False,
                  finding="sampler-rows-duplicated-if-killed-between-save-and-crop-deletion",
                  bounds="KNOWN FINDING probe: Sampler crop reap killed after exactly the 4 steps that save the table")]
-    + split_conds(_G, "farmer", body_farmer, "c:int base:int", ["0 <= c <= 24", "PHASE != 7 or c != 4"], "phase", [5, 6, 7],
+    + split_conds(_G, "farmer", body_farmer, "c:int base:int", ["0 <= c <= 24"], "phase", [5, 6, 7],
                   fixed=dict(K=2), timeout=900,
                   bounds="reap of a Runner / Harvester (with earlier data in its file) / Sampler (with earlier rows) "
                          "crop of 2 batches killed after c steps: earlier data survives and is readable; a fresh "
@@ -330,6 +334,6 @@ ASSUMPTIONS = [
 
 
 def classify(cond, args, detail):
-    if cond == "farmer_phase7":
+    if cond in ("farmer_phase7", "sampler_dup_window"):
         return "sampler-rows-duplicated-if-killed-between-save-and-crop-deletion"
     return None
